@@ -10,13 +10,14 @@ storage server, C22); repair itself is download (C02) followed by `upload` with 
 `VCfg.asIs` is the verifier as it was before the fix, `VCfg.repaired` the verifier as it is in /repo now (fix fb3513d =
 fixes/C45-verify-block-root.diff: the block hash tree root is taken from the validated share hash leaf).
 
-As built: 20 theorems (one `_partial`) — `verified_good_implies_all_valid` (+ `verified_good_counterexample` for the old verifier),
+As built: 22 theorems (one `_partial`) — `verified_good_implies_all_valid` (+ `verified_good_counterexample` for the old verifier),
 `healthy_iff_N_good`, `recoverable_iff_k_good`, `corrupt_shares_listed`, `noverify_believes_servers`,
 `recoverable_unhealthy_repair_attempted`, `repair_uses_original_parameters`, `repair_regenerates_identical_shares`,
 `post_repair_healthy_implies_N_good`, `repair_never_alters_good_shares`, `repair_output_is_encoder_output`,
 `repaired_share_passes_ct_stage`, `repaired_share_passes_block_hash_stage`, `repaired_share_passes_share_hash_stage`,
 `repaired_share_block_accepted`, `repaired_share_block_fetch_chain`, `validation_stages_keep_trees_closed`,
-`anchored_repaired_share_delivers_block`, `readable_from_repaired_shares_partial`. Further model parts: `checkServerShares` /
+`anchored_repaired_share_delivers_block`, `fresh_repaired_share_delivers_block`, `tail_stages_deliver_block`,
+`readable_from_repaired_shares_partial`. Further model parts: `checkServerShares` /
 `checkNoVerify`, `repairDecision`, `repairParams`, `gatherRepairResults`, `corruptLocators`. Driver lean/Drv/C45.lean
 (`veup`, `fmt`, `fmtlists`, `noverify`, `verify`, `repairdecision`, `repairparams`, `postrepair`, `repair`) ties each
 of them to the code. Only partially proved (monitor end to end): that the file can be read from the repaired shares alone. -/
@@ -28,7 +29,7 @@ of them to the code. Only partially proved (monitor end to end): that the file c
 | a check is healthy exactly when N distinct good shares are found | `healthy_iff_N_good` (+ the good list is duplicate-free and is exactly the share numbers some server's result lists) |
 | … recoverable exactly when at least k are | `recoverable_iff_k_good` |
 | repair using only the verify-cap produces shares that validate under the original read-cap | `repair_uses_original_parameters` (k, N from the cap, segment size from the VALIDATED UEB — seed C45-b) + `repair_regenerates_identical_shares` (a completed repair read re-publishes exactly the original cap, UEB, trees and blocks); neither uses the read key |
-| … so the file can be read from the repaired shares alone | PARTIAL: `repair_output_is_encoder_output` (repaired shares = the uploader's shares, parameters included), `repaired_share_passes_share_hash_stage`, `repaired_share_passes_block_hash_stage`, `repaired_share_passes_ct_stage`, `repaired_share_block_accepted` (completeness of every validation stage of `Share._satisfy_*` for such shares: share hash chain, block hash tree, crypttext hash tree, data block; C35 `tryBody_complete`), `repaired_share_block_fetch_chain` (block-hash stage then data stage chained on the node the first leaves behind), `validation_stages_keep_trees_closed` (`Closed`, the premise of the four acceptance theorems, is an invariant of every tree-writing stage whatever the share answers; `TreeOK` / `NodeInv` already are), `anchored_repaired_share_delivers_block` (one whole `_get_satisfaction` pass threaded through all eight stages: an anchored repaired share is answered with exactly the published block), `readable_from_repaired_shares_partial` (one share set; a read over it writes only a prefix of the file and `done` ⇒ the file). Missing links named there: composing all four stage theorems along one whole `satisfy` run and over a fetch history (the two block-tree stages are chained: `repaired_share_block_fetch_chain`; closedness of every tree is a proved stage invariant — `validation_stages_keep_trees_closed` — and one whole pass is threaded through `runStages` for an already anchored share — `anchored_repaired_share_delivers_block`; what is missing is the first pass over a share (share chain + block root stages in the same pass) and the induction over the per-segment history), decoding (`Tahoe.C36.immutable_any_k_blocks_decode_rs256`), termination (C03/C46); end to end this clause stays with the monitor (read from repaired shares only) |
+| … so the file can be read from the repaired shares alone | PARTIAL: `repair_output_is_encoder_output` (repaired shares = the uploader's shares, parameters included), `repaired_share_passes_share_hash_stage`, `repaired_share_passes_block_hash_stage`, `repaired_share_passes_ct_stage`, `repaired_share_block_accepted` (completeness of every validation stage of `Share._satisfy_*` for such shares: share hash chain, block hash tree, crypttext hash tree, data block; C35 `tryBody_complete`), `repaired_share_block_fetch_chain` (block-hash stage then data stage chained on the node the first leaves behind), `validation_stages_keep_trees_closed` (`Closed`, the premise of the four acceptance theorems, is an invariant of every tree-writing stage whatever the share answers; `TreeOK` / `NodeInv` already are), `anchored_repaired_share_delivers_block` and `fresh_repaired_share_delivers_block` (one whole `_get_satisfaction` pass threaded through all eight stages, for a share already anchored and for a share seen for the first time: a repaired share is answered with exactly the published block; helper `tail_stages_deliver_block`), `readable_from_repaired_shares_partial` (one share set; a read over it writes only a prefix of the file and `done` ⇒ the file). Missing links named there: composing all four stage theorems along one whole `satisfy` run and over a fetch history (the two block-tree stages are chained: `repaired_share_block_fetch_chain`; closedness of every tree is a proved stage invariant — `validation_stages_keep_trees_closed` — and one whole pass is threaded through `runStages` for an already anchored share — `anchored_repaired_share_delivers_block` — and for a share seen for the first time — `fresh_repaired_share_delivers_block`; what is missing is the induction over the per-segment history (`fetchSegment` over k shares) that re-establishes the premises of those two theorems for every pass), decoding (`Tahoe.C36.immutable_any_k_blocks_decode_rs256`), termination (C03/C46); end to end this clause stays with the monitor (read from repaired shares only) |
 | … and it never alters existing good shares | `repair_never_alters_good_shares` (abstract storage behaviour; refinement by the storage server is C22) |
 | a recoverable, unhealthy file gets a repair attempt, whatever the number of servers holding the good shares (seed C45-d) | `recoverable_unhealthy_repair_attempted` |
 | the post-repair results describe the grid after the repair (seed C45-c) | `post_repair_healthy_implies_N_good` |
@@ -376,6 +377,53 @@ example (cap : Cap H) : Closed (Node.init H cap).shareTree ∧ Closed (Node.init
   ⟨newTree_closed _, by intro i _ h; exact absurd (get_of_ge (by simp [Node.init])) h,
    fun sh m => by simp [Node.blockTree, Node.init]; exact newTree_closed _⟩
 
+/-- the last three stages (`_satisfy_block_hash_tree`, `_satisfy_ciphertext_hash_tree`, `_satisfy_data_block`) run in
+    sequence on a node whose block hash tree for the share is anchored: helper of the two whole-pass theorems -/
+theorem tail_stages_deliver_block (E : Env H) (cfg : Cfg) (prm : Params) (ser : UEB H → Bytes)
+    (encode : Nat → Bytes → Nat → Bytes) (ct : Bytes) (sz : Sizes) (S : Setup E cfg prm ser encode ct sz)
+    (Prep : Published H) (hrep : Prep = upload E prm encode ser ct)
+    (pick : List Nat → Nat) (shnum segnum : Nat) (v : View H) (nd : Node H) (u : UEB H)
+    (hk : nd.known = some (u, sz)) (hseg : segnum < sz.numSegs)
+    (hok : TreeOK E.ops (Prep.blockT shnum) (nd.blockTree shnum sz.numSegs))
+    (hcl : Closed (nd.blockTree shnum sz.numSegs))
+    (hnew : Base.Merkle.get (nd.blockTree shnum sz.numSegs) (firstLeafNum sz.numSegs + segnum) = none)
+    (hhonest : ∀ i, i < (Prep.blockT shnum).length → v.blockHashes i = Base.Merkle.get (Prep.blockT shnum) i)
+    (hctlen : nd.ctTree.length = Prep.ctT.length) (hctag : Agree nd.ctTree Prep.ctT) (hctcl : Closed nd.ctTree)
+    (hctnew : Base.Merkle.get nd.ctTree (firstLeafNum sz.numSegs + segnum) = none)
+    (hcthonest : ∀ i, i < Prep.ctT.length → v.ctHashes i = Base.Merkle.get Prep.ctT i)
+    (hblock : v.block = Prep.block shnum segnum)
+    (hsize : ¬ (v.block.isEmpty ∨
+      v.block.length ≠ (if segnum + 1 = sz.numSegs then sz.tailBlockSize else sz.blockSize))) :
+    (runStages [stageBlockHashes E cfg pick shnum segnum v, stageCtHashes E cfg pick segnum v,
+        stageData E cfg pick shnum segnum v] nd).1 = .block (Prep.block shnum segnum) := by
+  obtain ⟨h6, _⟩ := repaired_share_block_fetch_chain E cfg prm ser encode ct sz S Prep hrep pick shnum segnum v nd u
+    hk hok hcl hseg hnew hhonest hblock hsize
+  rw [runStages_cons_none h6]
+  obtain ⟨hk1, hct1, _⟩ := stageBlockHashes_frame E cfg pick shnum segnum v nd
+  obtain ⟨_, hok1⟩ := stageBlockHashes_sound (cfg := cfg) S.strict S.inj pick shnum segnum v nd hk hok
+  have hcl1 := stageBlockHashes_keeps_closed S.strict pick shnum segnum v nd hk hok hcl
+  have hL : firstLeafNum sz.numSegs + segnum < (nd.blockTree shnum sz.numSegs).length := by
+    rw [hok.2.1, hrep, upload_blockT, Integrity.build_length]
+    have hbl : (blockLeaves E prm encode ct shnum).length = sz.numSegs := by
+      rw [calcSizes_numSegs S.sizes]; simp [blockLeaves, segments]
+    rw [hbl]
+    have := roundupPow2_ge sz.numSegs
+    have := roundupPow2_pos sz.numSegs
+    unfold firstLeafNum; omega
+  have hfull := stageBlockHashes_accept_full S.strict pick shnum segnum v nd hk hL h6
+  generalize (stageBlockHashes E cfg pick shnum segnum v nd).2 = nd1 at hk1 hct1 hok1 hcl1 hfull ⊢
+  have h7 := repaired_share_passes_ct_stage E cfg prm ser encode ct sz S Prep hrep pick segnum v nd1 u
+    (by rw [hk1]; exact hk) (by rw [hct1]; exact hctlen) (by rw [hct1]; exact hctag) (by rw [hct1]; exact hctcl)
+    hseg (by rw [hct1]; exact hctnew) hcthonest
+  rw [runStages_cons_none h7]
+  obtain ⟨hk2, hbt2, _⟩ := stageCtHashes_frame E cfg pick segnum v nd1
+  have hbt : ∀ m, (stageCtHashes E cfg pick segnum v nd1).2.blockTree shnum m = nd1.blockTree shnum m := by
+    intro m; unfold Node.blockTree; rw [hbt2]
+  apply runStages_last_some
+  exact repaired_share_block_accepted E cfg prm ser encode ct sz S Prep hrep pick shnum segnum v _ u
+    (by rw [hk2, hk1]; exact hk) (by rw [hbt]; exact hok1.2.1) (by rw [hbt]; exact hok1.2.2.1) (by rw [hbt]; exact hcl1)
+    hseg (fun i hi => by rw [hbt]; exact hfull i (Or.inl hi)) hblock hsize
+
 /-- **anchored_repaired_share_delivers_block** (one whole `Share._get_satisfaction` pass, all eight stages threaded
     through `runStages`): on a download node that has validated the UEB, whose share hash tree already holds the uncle
     chain of share `shnum` and whose block hash tree for that share is anchored (an earlier segment was fetched from
@@ -474,6 +522,115 @@ example :
     (satisfy ex3E Cfg.asIs (fun _ => 0) P.cap nd 0 2
       { ex3Honest 2 with block := [99] }).1 = .corrupt := by decide
 
+/-- **fresh_repaired_share_delivers_block** (the FIRST `_get_satisfaction` pass over a share, all eight stages): on a
+    download node that has validated the UEB, holds an anchored closed partial copy of the repairer's share hash tree
+    that still lacks part of the uncle chain of share `shnum`, and has never seen that share (its block hash tree is
+    empty), a repaired (or old) share of a file of at least two segments — sane offsets, `Prep`'s share hash chain,
+    block hashes, crypttext hashes and block — is answered with exactly the published block: the share hash chain is
+    accepted, the block hash root is taken from the validated leaf, and the remaining stages follow
+    (`tail_stages_deliver_block`). Together with `anchored_repaired_share_delivers_block` this covers every pass. -/
+theorem fresh_repaired_share_delivers_block (E : Env H) (cfg : Cfg) (prm : Params) (ser : UEB H → Bytes)
+    (encode : Nat → Bytes → Nat → Bytes) (ct : Bytes) (sz : Sizes) (S : Setup E cfg prm ser encode ct sz)
+    (Prep : Published H) (hrep : Prep = upload E prm encode ser ct)
+    (pick : List Nat → Nat) (shnum segnum : Nat) (v : View H) (nd : Node H) (u : UEB H)
+    (hk : nd.known = some (u, sz)) (hseg : segnum < sz.numSegs) (h2 : 2 ≤ sz.numSegs) (hsh : shnum < prm.n)
+    (hoff : satisfyOffsets v.version v.offs = none)
+    (hshare : TreeOK E.ops Prep.shareT nd.shareTree) (hshcl : Closed nd.shareTree)
+    (hne : (neededHashes nd.shareTree (firstLeafNum prm.n + shnum)).isEmpty = false)
+    (hgen : ∀ i w, (i, w) ∈ dictOf v.shareHashes → Base.Merkle.get Prep.shareT i = some w)
+    (hkeys : ∀ i w, (i, w) ∈ dictOf v.shareHashes →
+      i ∈ neededFor (firstLeafNum prm.n + shnum) ∨ i = firstLeafNum prm.n + shnum)
+    (hcov : ∀ i ∈ neededFor (firstLeafNum prm.n + shnum), ∃ w, (i, w) ∈ dictOf v.shareHashes)
+    (hleaf : ∃ w, (firstLeafNum prm.n + shnum, w) ∈ dictOf v.shareHashes)
+    (hbt : nd.blockTree shnum sz.numSegs = newTree H sz.numSegs)
+    (hhonest : ∀ i, i < (Prep.blockT shnum).length → v.blockHashes i = Base.Merkle.get (Prep.blockT shnum) i)
+    (hctlen : nd.ctTree.length = Prep.ctT.length) (hctag : Agree nd.ctTree Prep.ctT) (hctcl : Closed nd.ctTree)
+    (hctnew : Base.Merkle.get nd.ctTree (firstLeafNum sz.numSegs + segnum) = none)
+    (hcthonest : ∀ i, i < Prep.ctT.length → v.ctHashes i = Base.Merkle.get Prep.ctT i)
+    (hblock : v.block = Prep.block shnum segnum)
+    (hsize : ¬ (v.block.isEmpty ∨
+      v.block.length ≠ (if segnum + 1 = sz.numSegs then sz.tailBlockSize else sz.blockSize))) :
+    (satisfy E cfg pick Prep.cap nd shnum segnum v).1 = .block (Prep.block shnum segnum) := by
+  subst hrep
+  have hn : (upload E prm encode ser ct).cap.n = prm.n := rfl
+  unfold satisfy stages
+  rw [runStages_cons_none (by simp only [hoff])]
+  simp only [hoff]
+  have e2 : stageUEB E (upload E prm encode ser ct).cap v nd = (none, nd) := by unfold stageUEB; rw [hk]
+  rw [runStages_cons_none (by rw [e2]), e2]
+  have e3 : stageSegnum segnum nd = (none, nd) := by
+    unfold stageSegnum; rw [hk]; simp only; rw [if_neg (by omega)]
+  rw [runStages_cons_none (by rw [e3]), e3]
+  -- share hash chain
+  have h4 := repaired_share_passes_share_hash_stage E cfg prm ser encode ct sz S _ rfl pick shnum v nd hsh
+    hshare.2.1 hshare.2.2.1 hshcl hgen hkeys hcov hleaf
+  rw [runStages_cons_none h4]
+  have hL : ¬ (firstLeafNum (upload E prm encode ser ct).cap.n + shnum ≥ nd.shareTree.length) := by
+    rw [hn, hshare.2.1, upload_shareT, Integrity.build_length]
+    have hl : (shareLeaves E prm encode ct).length = prm.n := by simp [shareLeaves]
+    rw [hl]
+    have := roundupPow2_ge prm.n
+    have := roundupPow2_pos prm.n
+    unfold firstLeafNum; omega
+  obtain ⟨w, hw⟩ := hleaf
+  have hleafst := stageShareTree_accept_leaf S.strict pick (upload E prm encode ser ct).cap shnum v nd hL hne hw h4
+  have hshare' := stageShareTree_sound (cfg := cfg) S.strict S.inj pick (upload E prm encode ser ct).cap shnum v nd hshare
+  have hfr : (stageShareTree E cfg pick (upload E prm encode ser ct).cap shnum v nd).2.known = nd.known ∧
+      (stageShareTree E cfg pick (upload E prm encode ser ct).cap shnum v nd).2.ctTree = nd.ctTree ∧
+      (stageShareTree E cfg pick (upload E prm encode ser ct).cap shnum v nd).2.blockTrees = nd.blockTrees := by
+    unfold stageShareTree
+    dsimp only
+    repeat' split
+    all_goals exact ⟨rfl, rfl, rfl⟩
+  generalize (stageShareTree E cfg pick (upload E prm encode ser ct).cap shnum v nd).2 = nd' at hleafst hshare' hfr ⊢
+  obtain ⟨hk', hct', hbts'⟩ := hfr
+  have hbt' : nd'.blockTree shnum sz.numSegs = newTree H sz.numSegs := by
+    unfold Node.blockTree at hbt ⊢; rw [hbts']; exact hbt
+  -- block hash root from the validated leaf
+  have e5 := stageBlockRoot_fresh E cfg pick (upload E prm encode ser ct).cap shnum nd' (by rw [hk']; exact hk) hbt' hleafst
+  have hok2 := (stageBlockRoot_sound (cfg := cfg) S.strict S.inj pick shnum hsh nd' (by rw [hk']; exact hk)
+    (calcSizes_numSegs S.sizes) hshare' (Or.inl hbt') _ e5).2.2
+  rw [runStages_cons_none (by rw [e5]), e5]
+  have hL0 : 0 ≠ firstLeafNum sz.numSegs + segnum := by
+    have := roundupPow2_ge sz.numSegs
+    unfold firstLeafNum; omega
+  exact tail_stages_deliver_block E cfg prm ser encode ct sz S _ rfl pick shnum segnum v _ u
+    (by rw [(setBlockTree_known nd' shnum _).1, hk']; exact hk) hseg hok2
+    (by rw [blockTree_set_same]; exact seed_closed _ _)
+    (by rw [blockTree_set_same]; unfold seed; rw [get_set_ne _ hL0, get_newTree])
+    hhonest
+    (by rw [(setBlockTree_known nd' shnum _).2.2, hct']; exact hctlen)
+    (by rw [(setBlockTree_known nd' shnum _).2.2, hct']; exact hctag)
+    (by rw [(setBlockTree_known nd' shnum _).2.2, hct']; exact hctcl)
+    (by rw [(setBlockTree_known nd' shnum _).2.2, hct']; exact hctnew)
+    hcthonest hblock hsize
+
+/-- a two-segment file replicated on two shares (1-of-2, symbolic hashes) for the non-vacuity check of
+    `fresh_repaired_share_delivers_block`: the share hash chain of share 0 is its own leaf and the leaf of share 1 -/
+def ex2Prm : Params := { k := 1, n := 2, segSize := 2 }
+def ex2E : Env SymH :=
+  { C02.exE0 with
+    parseUEB := fun b => if b = [7] then some (upload C02.exE0 ex2Prm C02.exEncode C02.exSer C02.exCt).ueb else none }
+def ex2Honest (shnum segnum : Nat) : View SymH :=
+  let P := upload ex2E ex2Prm C02.exEncode C02.exSer C02.exCt
+  { C02.exHonest 0 with
+    shareHashes := [1, 2].filterMap (fun i => (Base.Merkle.get P.shareT i).map (fun h => (i, h))),
+    blockHashes := fun i => Base.Merkle.get (P.blockT shnum) i, ctHashes := fun i => Base.Merkle.get P.ctT i,
+    block := P.block shnum segnum }
+
+example :
+    let P := upload ex2E ex2Prm C02.exEncode C02.exSer C02.exCt
+    let nd := (stageUEB ex2E P.cap (ex2Honest 0 1) (Node.init SymH P.cap)).2
+    nd.known.isSome ∧ satisfyOffsets (ex2Honest 0 1).version (ex2Honest 0 1).offs = none ∧
+    (neededHashes nd.shareTree (firstLeafNum 2 + 0)).isEmpty = false ∧
+    (dictOf (ex2Honest 0 1).shareHashes).length = 2 ∧
+    nd.blockTree 0 2 = newTree SymH 2 ∧ Base.Merkle.get nd.ctTree (firstLeafNum 2 + 1) = none ∧
+    (satisfy ex2E Cfg.asIs (fun _ => 0) P.cap nd 0 1 (ex2Honest 0 1)).1 = .block (P.block 0 1) ∧
+    (satisfy ex2E Cfg.asIs (fun _ => 0) P.cap (Node.init SymH P.cap) 0 1 (ex2Honest 0 1)).1 = .block (P.block 0 1) ∧
+    (satisfy ex2E Cfg.asIs (fun _ => 0) P.cap nd 0 1
+      { ex2Honest 0 1 with shareHashes := ((ex2Honest 0 1).shareHashes.map (fun e => (e.1, SymH.raw 99))) }).1
+      = .dead .badHash := by decide
+
 /-- **readable_from_repaired_shares_partial**.  Full statement (NOT proved): after a repair that reports success,
     every read that is offered any k distinct shares out of the old and the repaired ones ends `done` with the
     file's bytes.  Proved here: (1) old and repaired shares are one share set of the original publication
@@ -485,7 +642,8 @@ example :
     `repaired_share_passes_ct_stage`, `repaired_share_block_accepted`) along one whole fetch (the block-hash and data stages are chained in
     `repaired_share_block_fetch_chain`; closedness of every tree is a proved stage invariant,
     `validation_stages_keep_trees_closed`; one whole pass over an anchored share is threaded through `runStages` in
-    `anchored_repaired_share_delivers_block`; the first pass over a share and the induction over the history are left); decoding of any k genuine blocks (`Tahoe.C36.immutable_any_k_blocks_decode_rs256`,
+    `anchored_repaired_share_delivers_block` and, for the first pass over a share, in
+    `fresh_repaired_share_delivers_block`; the induction over the fetch history is left); decoding of any k genuine blocks (`Tahoe.C36.immutable_any_k_blocks_decode_rs256`,
     `rs256_mds`, for `decode` := zfec); termination with k good shares (C03 / C46). -/
 theorem readable_from_repaired_shares_partial (E : Env H) (cfg : Cfg) (prm : Params) (ser : UEB H → Bytes)
     (encode : Nat → Bytes → Nat → Bytes) (ct : Bytes) (sz : Sizes) (S : Setup E cfg prm ser encode ct sz)
